@@ -21,6 +21,7 @@ m = {
  "detected": det[:6],
  "failed_obligations": [re.sub(r'\s+\[.*', '', l[len('FAILED '):]) for l in fails][:12],
  "detected_count": len(det),
+ "canary_for": sorted(set(re.findall(r"^VIOLATION property=(C\d+)", log, re.M))),
 }
 json.dump(m, open(os.path.join(d, 'meta.json'), 'w'), indent=1)
 print(sid, "detected" if det else "MISSED", len(det))
